@@ -46,7 +46,8 @@ SHAPES = {
 BIN_TYPES = ["below", "below=", "above", "above=", "within", "=within", "within=", "=within="]
 VARIANTS = [[], ["-r", "0,2,5"], ["-r", "0,2,5", "-b", "within"], ["-agg", "median"], ["-q", "0.1,0.9"], ["-r", "2", "-b", "below="],
             ["-r", "1,3", "-b", "=within="], ["-agg", "0.9", "-r", "0,2,5"], ["-agg", "max", "-r", "0,100,200", "-b", "within"],
-            ["-agg", "range", "-r", "100", "-b", "above"], ["-r", "3", "-q", "0.5"], ["-r", "5,1"], ["-r", "2", "-q", "0.9,0.1"], ["-q", "0.5"]]
+            ["-agg", "range", "-r", "100", "-b", "above"], ["-r", "3", "-q", "0.5"], ["-r", "5,1"], ["-r", "2", "-q", "0.9,0.1"], ["-q", "0.5"],
+            ["-d", "20130101"], ["-tod", "3"], ["-d", "20130101", "-r", "2"]]        # selections that leave no time at all
 
 
 def write_file(path, rng, nt, nl, ns, prob, ens, blank=None, x0=False, noobs=False):
@@ -228,6 +229,9 @@ def _explore(out, tier, seed, facts, replay, tmp):
             jobs.add(("miss", n, ax, rng.choice(["plot", "text"]), ()))
             jobs.add(("missfirst", n, ax, rng.choice(["plot", "text"]), (), rng.choice([1, 2, 3])))
             jobs.add(("full", n, ax, rng.choice(["plot", "text", "csv"]), ("-r", "2")))
+    for n in names:
+        for ax in ("time", "month", "week", "year", "day"):
+            jobs.add(("full", n, ax, "plot", rng.choice([("-d", "20130101"), ("-tod", "3")])))
     # every name with every bin type (one and three thresholds), every aggregator name, and one / three input files
     for n in names:
         diagram = n in os_ and n not in ms          # a diagram class: only its plot exists, so that is the type to run
